@@ -219,6 +219,9 @@ func Go(f func()) {
 	}
 	t := &task{id: len(s.tasks), wake: make(chan struct{}), ready: true}
 	t.name = fmt.Sprintf("T%d@%s", t.id, site())
+	if t.id == 0 {
+		t.name = "T0@body" // the spawn site of the body is the explorer, not part of the scenario
+	}
 	for _, b := range s.opt.Bg {
 		if strings.Contains(t.name, b) {
 			t.bg = true
